@@ -29,6 +29,13 @@ pub struct Verdict {
 
 /// Compile one project both ways under one discovery order.
 pub fn verdict(sb: &Sandbox, files: &Files, cfg: (u64, u64, u64)) -> (Verdict, u64) {
+    let (v, n, _) = verdict_over(sb, files, cfg, None);
+    (v, n)
+}
+
+/// `store`: artifacts an earlier build left in the output directory (the separate pipeline then
+/// rebuilds *in place*, as a user does after an edit). Returns the artifacts of this build too.
+pub fn verdict_over(sb: &Sandbox, files: &Files, cfg: (u64, u64, u64), store: Option<&Files>) -> (Verdict, u64, Files) {
     sb.materialise(files);
     let (entropy, readdir, order) = cfg;
     let spec = ProcSpec { entropy, readdir, ..Default::default() };
@@ -79,6 +86,13 @@ pub fn verdict(sb: &Sandbox, files: &Files, cfg: (u64, u64, u64)) -> (Verdict, u
         names
     });
     let mut ent = Prng::new(mix(&[entropy, readdir, 3]));
+    if let Some(st) = store {
+        for (k, v) in st {
+            if k.starts_with("out/") && (k.ends_with(".interface") || k.ends_with(".core")) {
+                sb.write(k, v);
+            }
+        }
+    }
     let sep = ops::separate_build(sb, &layout, &build_order, &mut ent, &mut op, false);
     procs += build_order.len() as u64 + 1;
     // a directory that is not a package the layout scan could name (e.g. declared under another
@@ -95,7 +109,7 @@ pub fn verdict(sb: &Sandbox, files: &Files, cfg: (u64, u64, u64)) -> (Verdict, u
     // arbitrary choice, so *where* the separate build fails is not the compiler's nondeterminism
     // (nor is a message that quotes a path, when the paths were respelled)
     let separate_where = if has_topo && order % 2 == 0 { sep.failure.map(|(s, m)| format!("{s}: {m}")).unwrap_or_default() } else { String::new() };
-    (Verdict { whole, whole_diags, separate, separate_where }, procs)
+    (Verdict { whole, whole_diags, separate, separate_where }, procs, sep.artifacts)
 }
 
 /// Artifact-store configurations of the separate pipeline, on the legal twin: after a complete
@@ -208,6 +222,7 @@ struct CaseResult {
     applicable: bool,
     digest: String,
     store_configs: u64,
+    in_place: u64,
 }
 
 fn check_case(sb: &Sandbox, opts: &Opts, idx: usize, orders: usize, forced: Option<(Files, Files, String, Illegal)>) -> CaseResult {
@@ -216,7 +231,7 @@ fn check_case(sb: &Sandbox, opts: &Opts, idx: usize, orders: usize, forced: Opti
     cfg.max_pkgs = cfg.max_pkgs.max(2);
     let proj = generate(&mut p, &cfg);
     let kind = ILLEGAL_KINDS[idx % ILLEGAL_KINDS.len()].clone();
-    let mut r = CaseResult { violations: Vec::new(), procs: 0, fingerprints: Vec::new(), kind: format!("{kind:?}"), sample: None, applicable: false, digest: String::new(), store_configs: 0 };
+    let mut r = CaseResult { violations: Vec::new(), procs: 0, fingerprints: Vec::new(), kind: format!("{kind:?}"), sample: None, applicable: false, digest: String::new(), store_configs: 0, in_place: 0 };
     let forced_given = forced.is_some();
     let (twin, bad, desc, kind) = match forced {
         Some(f) => f,
@@ -245,8 +260,13 @@ fn check_case(sb: &Sandbox, opts: &Opts, idx: usize, orders: usize, forced: Opti
             mix(&[opts.seed, idx as u64, k as u64, purpose("c16-readdir")]),
             mix(&[opts.seed, idx as u64, k as u64, purpose("c16-order")]),
         );
-        let (vt, n1) = verdict(sb, &twin, c);
-        let (vb, n2) = verdict(sb, &bad, c);
+        let (vt, n1, twin_store) = verdict_over(sb, &twin, c, None);
+        // for every second order the illegal version is built over what the build of the legal
+        // version left in the output directory (an edit introduced the illegality; the rebuild
+        // happens in place): what is in the store must not make an illegal project acceptable
+        let in_place = k % 2 == 1 && vt.separate == "accepted";
+        let (vb, n2, _) = verdict_over(sb, &bad, c, if in_place { Some(&twin_store) } else { None });
+        r.in_place += in_place as u64;
         r.procs += n1 + n2;
         r.digest = sha(format!("{}{:?}{:?}", r.digest, vt, vb).as_bytes());
         r.fingerprints.push(format!("{}:{}", &sha(serde_json::to_string(&files_json(&bad)).unwrap().as_bytes())[..12], k));
@@ -336,9 +356,11 @@ pub fn run(opts: &Opts) -> i32 {
     let mut per_kind: BTreeMap<String, u64> = BTreeMap::new();
     let mut applicable = 0u64;
     let mut store_cfgs = 0u64;
+    let mut in_place = 0u64;
     for r in results {
         ev.evaluations += r.procs;
         store_cfgs += r.store_configs;
+        in_place += r.in_place;
         if r.applicable {
             applicable += 1;
             *per_kind.entry(r.kind.clone()).or_insert(0) += 1;
@@ -355,6 +377,7 @@ pub fn run(opts: &Opts) -> i32 {
         ev.fault(&format!("layout:{k}"), *v);
     }
     ev.fault("store:interface-declaring-another-package-first-on-the-search-path", store_cfgs);
+    ev.fault("history:illegal-version-built-over-the-store-of-the-legal-version", in_place);
     ev.extra.insert("graphs".into(), json!(n));
     ev.extra.insert("graphs_with_injected_illegality".into(), json!(applicable));
     ev.extra.insert("orders_per_graph".into(), json!(orders));
